@@ -51,8 +51,9 @@ impl StructAttr {
             crate_rename: Some(enum_attr.crate_rename()),
             rename: variant_attr.rename.clone(),
             rename_all: variant_attr.rename_all.or(match variant_fields {
-                Fields::Named(_) => enum_attr.rename_all_fields,
-                Fields::Unnamed(_) | Fields::Unit => None,
+                // (the enum-wide rule has nothing to rename in a variant without fields)
+                Fields::Named(named) if !named.named.is_empty() => enum_attr.rename_all_fields,
+                _ => None,
             }),
             tag: match variant_fields {
                 // an `untagged` variant carries no tag, whatever the enum's representation is
